@@ -96,7 +96,10 @@ type TupleV []Value
 // TimeV: abstract instant, nanoseconds since the Unix epoch as an Int term.
 type TimeV struct{ NS *Term }
 
-type Opaque struct{ What string }
+type Opaque struct {
+	What string
+	Data interface{} // engine payload carried by the opaque value (json model)
+}
 
 func (o *Opaque) String() string { return "opaque(" + o.What + ")" }
 
@@ -237,7 +240,7 @@ func (e *Exec) zero(t types.Type) Value {
 			return nil // (unused range key/value slots have invalid type)
 		}
 		if u.Kind() == types.Complex128 || u.Kind() == types.Complex64 {
-			return &Opaque{"complex"}
+			return &Opaque{What: "complex"}
 		}
 		panic(fmt.Sprintf("zero: basic %v", u))
 	case *types.Pointer:
